@@ -494,12 +494,12 @@ func c02One(c *Ctx, r *Rng, o simOpts, prop string) {
 			for unorderedMaps(p.external[0], false) {
 				p.external[0] = genType(r)
 			}
-			p.extRows = 1 + r.Intn(3)
+			p.extRows = r.Intn(4) // 0: an empty external table still has a name and column headers
 		}
 	} else if r.Chance(40) {
 		t, _ := parseCH("String")
 		p.external = []*TNode{t}
-		p.extRows = 2
+		p.extRows = []int{2, 0}[r.Intn(2)]
 	}
 	cs := map[string]any{"revision": sc.enc.rev, "compression": int(o.compression), "plan": planString(p), "query_id": q.id, "settings": len(q.settings) + len(o.settings), "params": len(q.params), "external": typeNames(p.external)}
 	R.Case(fmt.Sprintf("%d|%d|%s|%s|%d", sc.enc.rev, o.compression, planString(p), q.body, len(q.params)), isInsert || len(p.external) > 0)
